@@ -117,7 +117,7 @@ def layout_rules(run, repo, res, label):
         return
     for k, line in enumerate(rec):
         num = k % 4 + 1
-        fn = m.functions['_write_line%d' % num]
+        fn = m.functions.get('_write_line%d' % num, wfn)     # where to point the report; the rule does not depend on it
         ok_len = len(line) == 81
         digit = None
         if ok_len:
@@ -126,7 +126,7 @@ def layout_rules(run, repo, res, label):
                 digit = d_.literal() if d_.is_literal() else None
             except Exception:
                 digit = None
-        run.check(ok_len and digit == str(num), 'TABLE.col80', 'thermdat._write_line%d' % num, 'record digit',
+        run.check(ok_len and digit == str(num), 'TABLE.col80', 'thermdat.write_thermdat record %d' % num, 'record digit',
                   '[%s] record %d is %d characters long with %r in column 80; the Chemkin layout needs the record '
                   'number %d in column 80 of an 80-column line' % (label, num, len(line) - 1, digit, num), m, fn)
         if num > 1 and ok_len:
@@ -140,14 +140,14 @@ def layout_rules(run, repo, res, label):
                 ok = ok and f is not None and f.cls == 'num'
                 if f is not None and f.spec is not None:
                     sd = spec_sigdigits(f.spec)
-                    run.check(sd is not None and sd >= 9, 'TABLE.precision', 'thermdat._write_line%d' % num,
+                    run.check(sd is not None and sd >= 9, 'TABLE.precision', 'thermdat.write_thermdat record %d' % num,
                               'coefficient precision', 'coefficients are written with %s significant digits, the '
                               'property needs nine (spec %r)' % (sd, f.spec), m, fn)
-            run.check(ok, 'TABLE.fields', 'thermdat._write_line%d' % num, 'five 15-column fields',
+            run.check(ok, 'TABLE.fields', 'thermdat.write_thermdat record %d' % num, 'five 15-column fields',
                       '[%s] record %d does not consist of %d coefficient fields of 15 characters: %s'
                       % (label, num, nf, show(line, 200)), m, fn)
         if num == 1 and ok_len:
-            fn1 = m.functions['_write_line1']
+            fn1 = m.functions.get('_write_line1', wfn)
             sp = res['species'][k // 4]
             # composition cells: symbols start at columns 25/30/35/40, counts end at 29/34/39/44, phase column 45
             cell = 0
@@ -178,7 +178,7 @@ def layout_rules(run, repo, res, label):
             except Exception as e:
                 good = False
                 why = 'column 45: %s' % e
-            run.check(good, 'TABLE.line1', 'thermdat._write_line1', 'composition/phase columns',
+            run.check(good, 'TABLE.line1', 'thermdat.write_thermdat record 1', 'composition/phase columns',
                       '[%s] element symbols must start at columns 25/30/35/40, counts end at 29/34/39/44 and the phase '
                       'sit in column 45: %s' % (label, why), m, fn1)
 
@@ -219,8 +219,8 @@ def compare_species(run, repo, res, label, key_suffix=''):
                 want = DictV({k: v for k, v in want.d.items()
                               if I.order.ranks.get(list(v.atoms())[0], 1) > 0})
             got = rd.attrs.get(attr)
-            fnr = m.functions['_read_line1'] if attr in ('name', 'phase', 'elements', 'T_low', 'T_high', 'T_mid') \
-                else m.functions['_read_line2']
+            fnr = m.functions.get('_read_line1' if attr in ('name', 'phase', 'elements', 'T_low', 'T_high', 'T_mid')
+                                  else '_read_line2', rfn)       # where to point the report only
             if not run.check(val_eq(I, got, want), 'TABLE.readback', 'thermdat.read_thermdat', 'attr:' + attr + key_suffix,
                              '[%s] %s of species %s reads back as %s, written from %s'
                              % (label, attr, sp.name, show(I.plain(got), 120), show(want, 120)), m, fnr,
@@ -320,7 +320,7 @@ def check(run, repo):
 
 T_ = 'pmutt/io/thermdat.py'
 MUTANTS = [
-    {'name': 'one coefficient with 7 decimals', 'expect': ('TABLE', '_write_line'),
+    {'name': 'one coefficient with 7 decimals', 'expect': ('TABLE', 'write_thermdat record'),
      'edits': [(T_, "line = ('{: 2.8E}{: 2.8E}{: 2.8E}{: 2.8E}{: 2.8E}    2\\n'", "line = ('{: 2.8E}{: 2.7E}{: 2.8E}{: 2.8E}{: 2.8E}    2\\n'")]},
     {'name': 'line 3 swaps a_high[5] and a_high[6]', 'expect': ('TABLE.readback', 'read_thermdat'),
      'edits': [(T_, "nasa_specie.a_high[5], nasa_specie.a_high[6], nasa_specie.a_low[0],", "nasa_specie.a_high[6], nasa_specie.a_high[5], nasa_specie.a_low[0],")]},
